@@ -48,3 +48,24 @@ func init() {
 		Rules:   []string{"C08.R1", "C08.R2", "C08.R3", "C08.R4", "C08.R5"},
 		Explain: "tbd", NotDecided: []string{"tbd"}})
 }
+
+func init() {
+	registerProperty(&PropertyDef{ID: "C09", Title: "Quantize and RoundToIntegral produce the requested exponent, correctly rounded",
+		Rules:   []string{"C09.R1", "C09.R2", "C09.R3", "C09.R4"},
+		Explain: "tbd", NotDecided: []string{"tbd"}})
+	registerProperty(&PropertyDef{ID: "C10", Title: "Integer division and remainder satisfy the division identity",
+		Rules:   []string{"C10.R1", "C10.R2", "C01.R3"},
+		Explain: "tbd", NotDecided: []string{"tbd"}})
+}
+
+func init() {
+	registerProperty(&PropertyDef{ID: "C13", Title: "Text and binary encodings round-trip every Decimal exactly",
+		Rules:   []string{"C13.R1", "C13.R2", "C13.R3", "C13.R4", "C06.R2"},
+		Explain: "tbd", NotDecided: []string{"tbd"}})
+	registerProperty(&PropertyDef{ID: "C12", Title: "Exp, Ln, Log10 and Pow are accurate to one unit in the last place",
+		Rules:   []string{"C12.R1"},
+		Explain: "tbd", NotDecided: []string{"tbd"}})
+	registerProperty(&PropertyDef{ID: "C15", Title: "Cmp is the exact numeric order and CmpTotal is the documented total order",
+		Rules:   []string{"C15.R1"},
+		Explain: "tbd", NotDecided: []string{"tbd"}})
+}
